@@ -71,10 +71,14 @@ func (c *scriptedConn) Read(b []byte) (int, error) {
 	c.pieces[0] = c.pieces[0][n:]
 	return n, nil
 }
-func (c *scriptedConn) Write(b []byte) (int, error)        { return len(b), nil }
-func (c *scriptedConn) Close() error                       { return nil }
-func (c *scriptedConn) LocalAddr() net.Addr                { return &net.TCPAddr{IP: net.IPv4(127, 0, 0, 1), Port: 443} }
-func (c *scriptedConn) RemoteAddr() net.Addr               { return &net.TCPAddr{IP: net.IPv4(127, 0, 0, 2), Port: 50000} }
+func (c *scriptedConn) Write(b []byte) (int, error) { return len(b), nil }
+func (c *scriptedConn) Close() error                { return nil }
+func (c *scriptedConn) LocalAddr() net.Addr {
+	return &net.TCPAddr{IP: net.IPv4(127, 0, 0, 1), Port: 443}
+}
+func (c *scriptedConn) RemoteAddr() net.Addr {
+	return &net.TCPAddr{IP: net.IPv4(127, 0, 0, 2), Port: 50000}
+}
 func (c *scriptedConn) SetDeadline(t time.Time) error      { return nil }
 func (c *scriptedConn) SetReadDeadline(t time.Time) error  { return nil }
 func (c *scriptedConn) SetWriteDeadline(t time.Time) error { return nil }
